@@ -416,7 +416,8 @@ def predicates_harness(n_ops, first=None):
                 if got is not None:
                     raise Mismatch(f'{what}: get({p.spec}) finds non-member {got}')
 
-    OPS = ('append', 'add', 'insert', 'remove', 'discard', 'delidx', 'setidx', 'clear', 'copy', 'update')
+    OPS = ('append', 'add', 'insert', 'remove', 'discard', 'delidx', 'setidx', 'clear', 'copy', 'update',
+           'setslice')
 
     def fn(ex=None):
         ex = ex or SymDriver()
@@ -481,6 +482,27 @@ def predicates_harness(n_ops, first=None):
                 def act():
                     c[i] = p
                 log.append((op, i, str(p.spec)))
+            elif op == 'setslice':
+                q = U[ex.pick(len(U), f'q{k}')]
+                i = ex.pick(L + 1, f'i{k}')
+                j = i + 2
+                bulk = True
+                size = len(range(*slice(i, j).indices(L)))
+                trial = list(m)
+                trial[i:j] = [p, q]
+                ok = size == 2 and len(set(trial)) == len(trial)
+                for a_, x_ in enumerate(trial):
+                    for y_ in trial[:a_]:
+                        if x_.bicoords == y_.bicoords and x_ != y_:
+                            ok = False
+                if ok:
+                    new_m = trial
+                else:
+                    should = True
+
+                def act():
+                    c[i:j] = (p, q)
+                log.append((op, i, j, str(p.spec), str(q.spec)))
             elif op == 'clear':
                 new_m = []
                 act = lambda: c.clear()
